@@ -36,13 +36,16 @@ deriving Repr, DecidableEq
 def itvOf (t1merged t2 : Taskfile) : Vars :=
   if TaskModel.Gen.Load.mergePassesIncludedVars then t2.vars else t1merged.vars
 
+/-- the `Dir` that `Vars.Merge` stamps on merged variables: the include's directory for an
+advanced import, nothing otherwise -/
+def stampFor (inc : Include) : Option Dir := if inc.advanced then some inc.dir else none
+
 /-- `t1.Merge(t2, include)` -/
 def mergeTaskfile (t1 t2 : Taskfile) (inc : Include) : Except Err Taskfile :=
   if t1.version ≠ t2.version then .error .version
   else if t2.dotenv then .error .dotenv
   else
-    let stamp := if inc.advanced then some inc.dir else none
-    let t1' : Taskfile := { t1 with vars := Vars.merge t1.vars stamp t2.vars, env := Vars.merge t1.env stamp t2.env }
+    let t1' : Taskfile := { t1 with vars := Vars.merge t1.vars (stampFor inc) t2.vars, env := Vars.merge t1.env (stampFor inc) t2.env }
     match mergeTasks t1'.tasks t2.tasks inc (itvOf t1' t2) with
     | .ok tb => .ok { t1' with tasks := tb }
     | .error e => .error e
